@@ -19,7 +19,7 @@ From PJ.Gen Require GenericSerializeGen.
 Local Open Scope Z_scope.
 
 Notation GStream := (@Stream SN (obj SN)).
-Notation gRs := (Rs E.Generic obj_of_term gput).
+Notation gRs := (Rs E.Generic obj_of_term all_ok gput).
 Notation objs := (map (fun e => Some (obj_of_event e))).
 
 Lemma ends_val evs : ends (Val tt) evs -> raised evs = None.
@@ -38,7 +38,7 @@ Proof.
   { unfold stream_new in Hnew. destruct (preset_ok _ _ _); [reflexivity | discriminate]. }
   destruct (source_term_encoder_init_is_model (so_maxn o) (so_maxp o) (so_maxd o)) as (genc & Hg & HRt).
   exists genc. rewrite Hpr.
-  pose proof (source_stream_new_is_model E.Generic obj_of_term gput c o genc gopts Hpre HRt HRo) as H.
+  pose proof (source_stream_new_is_model E.Generic obj_of_term all_ok gput c o genc gopts Hpre HRt HRo) as H.
   rewrite Hnew in H. destruct (ctor c genc (Some gopts)) as [gs|e]; [|contradiction].
   exists gs. split; [exact Hg|]. split; [reflexivity | exact H].
 Qed.
